@@ -338,6 +338,40 @@ func c20(c *Ctx) {
 				}
 			}
 			r.Check(okScan, "C20.R3", "scan measures the reserve itself", p.Pos(lit.Pos()), "GetFuncSize is applied to the reserve start", "the size scan is applied to a different address than the reserve start")
+			// where the start is replaced by the result of a lookup that can fail, the replacement happens only when it succeeded
+			okStart := true
+			if ph, isPhi := start.(*ssa.Phi); isPhi {
+				for ei, e := range ph.Edges {
+					ex, isEx := resolveLocal(e).(*ssa.Extract)
+					if !isEx {
+						continue
+					}
+					cl, isCall := ex.Tuple.(*ssa.Call)
+					if !isCall || errIndex(cl.Call.Signature()) < 0 {
+						continue
+					}
+					var errV ssa.Value
+					for _, ref := range *cl.Referrers() {
+						if e2, ok := ref.(*ssa.Extract); ok && e2.Index == errIndex(cl.Call.Signature()) {
+							errV = e2
+						}
+					}
+					succeeded := false
+					for _, g := range knownAtEdge(ph.Block().Preds[ei], ph.Block()) {
+						if bo, ok := g.Cond.(*ssa.BinOp); ok && errV != nil {
+							if (bo.X == errV && isNilConst(bo.Y)) || (bo.Y == errV && isNilConst(bo.X)) {
+								if (bo.Op == token.EQL) == g.Pol {
+									succeeded = true
+								}
+							}
+						}
+					}
+					if !succeeded {
+						okStart = false
+					}
+				}
+			}
+			r.Check(okStart, "C20.R3", "reserve start replaced only by a successful lookup", p.Pos(lit.Pos()), "err == nil known where the looked-up address is taken", "the reserve start is taken from a lookup that failed (or found nothing): the reserve is placed at address 0 / a stale address and regions are handed out outside the placeholder")
 		}
 	}
 	// ---- R4 primary path and dispatch
